@@ -715,6 +715,22 @@ func (p *Prover) defFacts(g *graph) {
 							g.leq(term{a, 0}, term{p.sliceAtom(call.Call.Args[1]), 0}, 0)
 							p.Notes["syscall."+f.Name()+" returns n <= len(p) (contract)"] = true
 						}
+						// io.Reader: Read(p) returns 0 <= n <= len(p)
+						var buf ssa.Value
+						if call.Call.IsInvoke() && call.Call.Method.Name() == "Read" && len(call.Call.Args) == 1 {
+							buf = call.Call.Args[0]
+						} else if f := call.Call.StaticCallee(); f != nil && f.Name() == "Read" && f.Signature.Recv() != nil && len(call.Call.Args) == 2 && f.Signature.Results().Len() == 2 {
+							buf = call.Call.Args[1]
+						}
+						if buf != nil {
+							if sl, ok := buf.Type().Underlying().(*types.Slice); ok {
+								if bt, ok := sl.Elem().Underlying().(*types.Basic); ok && bt.Kind() == types.Byte {
+									g.leq(term{a, 0}, term{p.sliceAtom(buf), 0}, 0)
+									g.add(a, zero, 0)
+									p.Notes["Read(p) returns 0 <= n <= len(p) (io.Reader contract)"] = true
+								}
+							}
+						}
 					}
 				}
 				if cv, ok := a.v.(*ssa.Convert); ok {
